@@ -2,7 +2,7 @@
 They are plain python loops so that they run on CrossHair's symbolic strings as well."""
 
 XML_ENT = (("&amp;", "&"), ("&lt;", "<"), ("&gt;", ">"), ("&quot;", '"'), ("&apos;", "'"))
-VTT_ENT = (("&amp;", "&"), ("&lt;", "<"), ("&gt;", ">"), ("&nbsp;", " "), ("&lrm;", "‎"), ("&rlm;", "‏"))
+VTT_ENT = (("&amp;", "&"), ("&lt;", "<"), ("&gt;", ">"), ("&nbsp;", "\u00a0"), ("&lrm;", "\u200e"), ("&rlm;", "\u200f"))
 
 
 def decode_entities(s, table):
